@@ -201,3 +201,58 @@ Example coincide_example :
   geom_eqb s (mkRect (qc 6 1) (qc 15 2) (qc 2 1) (qc 2 1) false false "_" NOPOLY) = true /\
   area r = area s /\ area_overlap r s = qc 2 1.
 Proof. cbv zeta. split; [vm_compute; reflexivity|]. split; apply Qc_is_canon; vm_compute; reflexivity. Qed.
+
+(* ---------------- near-equal region names ----------------
+   Region names are compared EXACTLY (Python ==; String.eqb here): names that differ only in letter
+   case, by a trailing / leading underscore or digit, by one being a prefix of the other, '_' / '__' /
+   '#', are different regions.  Two rectangles whose names differ have no intersection and are not
+   equal, however the boxes lie; a piece of a split / a grid cell / a duplicate carries exactly the
+   name of its source (RectFacts / SplitFacts / GridFacts: same_attrs).  The harness runs every
+   operation that reads or copies the region on pairs of such names (harness/props/c18.py::NEAR). *)
+Definition near_distinct (a b : string) : bool := negb (String.eqb a b).
+
+Lemma near_distinct_neq a b : near_distinct a b = true <-> a <> b.
+Proof.
+  unfold near_distinct. destruct (String.eqb_spec a b) as [E|E]; cbn [negb]; split; intro H.
+  - discriminate.
+  - contradiction.
+  - exact E.
+  - reflexivity.
+Qed.
+
+Lemma inter_region_differs r s : region r <> region s -> inter r s = None /\ inter s r = None.
+Proof.
+  intro H. split; apply inter_none_iff; left; auto.
+Qed.
+
+Lemma req_region_differs r s : region r <> region s -> req r s = false /\ req s r = false.
+Proof.
+  intro H. unfold req. split.
+  - destruct (String.eqb_spec (region r) (region s)) as [E|E]; [contradiction|]. apply Bool.andb_false_r.
+  - destruct (String.eqb_spec (region s) (region r)) as [E|E]; [symmetry in E; contradiction|]. apply Bool.andb_false_r.
+Qed.
+
+(* the same box under two names of a near-equal pair: an overlap of the whole area, no intersection, not equal *)
+Lemma same_box_other_name r a b : wf r -> a <> b ->
+  let r1 := mkRect (cx r) (cy r) (rw r) (rh r) (fixed r) (hard r) a (rloc r) in
+  let r2 := mkRect (cx r) (cy r) (rw r) (rh r) (fixed r) (hard r) b (rloc r) in
+  inter r1 r2 = None /\ inter r2 r1 = None /\ req r1 r2 = false /\ req r2 r1 = false.
+Proof.
+  intros Hr Hab r1 r2.
+  assert (H : region r1 <> region r2) by exact Hab.
+  destruct (inter_region_differs r1 r2 H) as [A B]. destruct (req_region_differs r1 r2 H) as [C D].
+  repeat split; assumption.
+Qed.
+
+Example near_names_distinct :
+  forallb (fun p => near_distinct (fst p) (snd p))
+    [("dsp", "DSP"); ("A", "a"); ("Bram", "BRAM"); ("r_X1", "r_x1"); ("dsp", "dsp_"); ("_", "__"); ("dsp", "dsp1");
+     ("dsp1", "dsp10"); ("dsp", "ds"); ("_dsp", "dsp"); ("#", "_"); ("#", "__"); ("r_1", "r__1"); ("dsp0", "dspO")]%string
+  = true.
+Proof. vm_compute; reflexivity. Qed.
+
+Example near_case_example :
+  let r := mkRect (qc 2 1) (qc 2 1) (qc 4 1) (qc 4 1) false false "dsp" NOPOLY in
+  let s := mkRect (qc 2 1) (qc 2 1) (qc 10 1) (qc 1 1) false false "DSP" NOPOLY in
+  inter r s = None /\ inter s r = None /\ req r s = false /\ area_overlap r s = qc 4 1.
+Proof. cbv zeta. repeat split; first [vm_compute; reflexivity | apply Qc_is_canon; vm_compute; reflexivity]. Qed.
